@@ -50,6 +50,10 @@ class LockHeld(RuleAnalysis):
                     ce = it.context_expr
                     if isinstance(ce, ast.Call) and (dotted(ce.func) or "").split(".")[-1] in ("ExitStack", "AsyncExitStack") and isinstance(it.optional_vars, ast.Name):
                         self.stacks.add(it.optional_vars.id)
+            if isinstance(n, ast.Assign) and len(n.targets) == 1 and isinstance(n.targets[0], ast.Name) and isinstance(n.value, ast.Call) \
+                    and isinstance(n.value.func, ast.Attribute) and n.value.func.attr in ("enter_context", "enter_async_context") and n.value.args \
+                    and isinstance(n.value.args[0], ast.Call) and (dotted(n.value.args[0].func) or "").split(".")[-1] in ("ExitStack", "AsyncExitStack"):
+                self.stacks.add(n.targets[0].id)
         return [frozenset()]
 
     def may_raise(self, node, fact):
@@ -76,6 +80,8 @@ class LockHeld(RuleAnalysis):
                 if c in self.locks:
                     self.nested.append((c, held, node))
                     return [held | {f"via:{recv}:{c}"}]
+            if call.func.attr == "close" and recv in self.stacks:
+                return [frozenset(x for x in held if not x.startswith(f"via:{recv}:"))]
             if call.func.attr == "release" and canon_lock(call.func.value) in self.locks:
                 self.releases.append(node)
                 return [frozenset(x for x in held if x != canon_lock(call.func.value) and not x.endswith(":" + canon_lock(call.func.value)))]
